@@ -106,6 +106,8 @@ type FuncVerifier struct {
 	clausePick   func(ast.Expr) ast.Expr
 	pendingFresh []Term
 	noAllocAssume bool
+	oldBound     map[types.Object]Term
+	inClauseHere bool
 	heapSorts    map[string]*Sort // heap name -> reference sort
 	pureUsed, inlined, trustedUsed, contractUsed map[string]bool
 	allocBudget  func(st *State) Term
